@@ -144,6 +144,9 @@ pub fn run(tier: Tier) -> i32 {
     let total = np * nd;
     let res = par_chunks(total, 5000, ncpu(), |s, e| {
         let mut g = all_on(Dialect::American, curated.clone());
+        // a second, ordinary long-lived linter whose chunk cache is left alone: the same relation
+        // must hold for what a user of a reused linter sees
+        let mut g_cached = all_on(Dialect::American, curated.clone());
         let mut nonce = 0u64;
         let mut viols: Vec<Violation> = vec![];
         let mut evals = 0u64;
@@ -174,6 +177,13 @@ pub fn run(tier: Tier) -> i32 {
                     continue;
                 }
             };
+            let whole_cached = catch(|| {
+                let doc = Document::new_plain_english(&text, &*curated);
+                g_cached.lint(&doc)
+            });
+            if whole_cached.is_err() {
+                g_cached = all_on(Dialect::American, curated.clone());
+            }
             if !a.is_empty() && !b.is_empty() {
                 nontrivial += 1;
             }
@@ -182,6 +192,17 @@ pub fn run(tier: Tier) -> i32 {
             want.sort();
             got.sort();
             outcomes.insert(h64(&(a.len().min(3), b.len().min(3))));
+            if let Ok(wc) = &whole_cached {
+                let mut gc: Vec<Key> = wc.iter().map(|l| key(l, 0)).collect();
+                gc.sort();
+                if gc != want && want == got && viols.len() < 30 {
+                    viols.push(Violation {
+                        sig: "reused-linter-breaks-the-relation".into(),
+                        case: json!({"engine":"E1","paragraph": p, "rest": d, "linter": "long-lived, chunk cache active"}),
+                        detail: json!({"got": gc, "want": want}),
+                    });
+                }
+            }
             if want != got {
                 let missing: Vec<&Key> = want.iter().filter(|k| !got.contains(k)).collect();
                 let extra: Vec<&Key> = got.iter().filter(|k| !want.contains(k)).collect();
